@@ -2342,6 +2342,7 @@ def normalize_module(tree: ast.Module, extern=None) -> ast.Module:
         for n in ast.walk(tree):
             if isinstance(n, ast.FunctionDef):
                 n2.filtered_loops(n)
+                n2.scalarise_local_tuples(n)
                 n2.split_tuple_assigns(n)
         tree = n2.ItemsLoops().visit(tree)
         tree = Unroll().visit(tree)
